@@ -12,6 +12,7 @@ func init() {
 	vRegister("H_Det", H_Det)
 	vRegister("H_Writes", H_Writes)
 	vRegister("H_Text", H_Text)
+	vRegister("H_TextAfter", H_TextAfter)
 	vRegister("H_Pure", H_Pure)
 }
 
@@ -230,4 +231,32 @@ func H_Text() {
 	vAssert(sameA, "C13.text_action")
 	vCover("cover.text")
 	vReach(f == 3, "cover.text.both_flags")
+}
+
+// H_TextAfter: C13(d) with a history. The text of a flag / action value is a function of the value:
+// the same before and after the conversions of OTHER values in the same process (a memo, a reused
+// buffer or lazily built table that an earlier conversion leaves behind must not show).
+func H_TextAfter() {
+	f, g := FilterFlag(vU32("f")), FilterFlag(vU32("g"))
+	a, b := Action(vU32("a")), Action(vU32("b"))
+	f0, a0 := f.String(), a.String()
+	fm0, fe0 := f.MarshalText()
+	am0, ae0 := a.MarshalText()
+	// the other values, every conversion
+	_ = g.String()
+	g.MarshalText()
+	_ = b.String()
+	b.MarshalText()
+	var u Action
+	u.Unpack(b.String())
+	f1, a1 := f.String(), a.String()
+	fm1, fe1 := f.MarshalText()
+	am1, ae1 := a.MarshalText()
+	vObs("f", uint64(f))
+	vObs("g", uint64(g))
+	vAssert(f1 == f0, "C13.text_flag_history")
+	vAssert(a1 == a0, "C13.text_action_history")
+	vAssert(string(fm1) == string(fm0) && (fe0 == nil) == (fe1 == nil), "C13.marshal_flag_history")
+	vAssert(string(am1) == string(am0) && (ae0 == nil) == (ae1 == nil), "C13.marshal_action_history")
+	vCover("cover.text_history")
 }
